@@ -405,6 +405,7 @@ func (r *RowCache) IndexExists(row model.Model) error {
 		return nil
 	}
 	uuid := field.(string)
+	var indexExists *ErrIndexExists
 	for _, indexSpec := range r.indexSpecs {
 		if !indexSpec.isSchemaIndex() {
 			// Given the ordered indexSpecs, we can break here if we reach the
@@ -419,14 +420,23 @@ func (r *RowCache) IndexExists(row model.Model) error {
 		vals := r.indexes[index]
 		existing := vals[val]
 		if !existing.empty() && !existing.equals(newUUIDSet(uuid)) {
-			return NewIndexExistsError(
-				r.name,
-				val,
-				string(index),
-				uuid,
-				existing.list(),
-			)
+			if indexExists == nil {
+				indexExists = NewIndexExistsError(
+					r.name,
+					val,
+					string(index),
+					uuid,
+					existing.list(),
+				)
+				continue
+			}
+			// report the rows conflicting on any other index as well, the
+			// caller might disregard some of them
+			indexExists.Existing = append(indexExists.Existing, existing.list()...)
 		}
+	}
+	if indexExists != nil {
+		return indexExists
 	}
 	return nil
 }
